@@ -28,10 +28,17 @@ func (e *ObjectEntity) Spec() (s *Spec)
   requires e != nil
   ensures s == e.spec
 
+func (s *Spec) RawSpec() (m map[string]interface{})
+  requires s != nil
+  ensures m == s.rawSpec
+
+// sid is by definition the content class of the raw spec (the map rebuilt from the validated YAML, never
+// written after NewSpec): that definition is the assume below; what is proved is that Equals compares exactly
+// the two raw specs and nothing that a live object writes into (the typed object spec is such a thing)
 func (s *Spec) Equals(other *Spec) (eq bool)
-  trusted
   pure
   requires s != nil && other != nil
+  assume sid-is-the-content-class-of-the-raw-spec: forall t int :: deepEq(t, ref(s.rawSpec), t, ref(other.rawSpec)) == (s.sid == other.sid)
   ensures eq == (s.sid == other.sid)
 
 func (f ObjectEntityWatcherFilter) call(entity *ObjectEntity) (ok bool)
@@ -92,6 +99,32 @@ func (or *ObjectRegistry) applyConfig(config map[string]string)
     invariant[2] domOf(or.entities) == eDom && valsOf(or.entities) == eVal && watchersWF(or) && event != nil && event.Delete != nil && event.Create != nil && event.Update != nil && fresh(event.Delete) && fresh(event.Create) && fresh(event.Update) && watcher != nil && watcher.entities != nil && watcher.entities != or.entities && watcher.filter != nil
     invariant[3] domOf(or.entities) == eDom && valsOf(or.entities) == eVal && watchersWF(or) && event != nil && event.Delete != nil && event.Create != nil && event.Update != nil && fresh(event.Delete) && fresh(event.Create) && fresh(event.Update) && watcher != nil && watcher.entities != nil && watcher.entities != or.entities && watcher.filter != nil
   end
+// ---- C20: a new watcher starts from a snapshot: its own map of the entities it wants, and a first event whose
+// Create map is another map with the same content (the receiver of the event and the registry's later updates of
+// watcher.entities must not share a map), registered under its name
+ghost var gFirstEvent int   // the event put on the watcher's channel
+func newObjectEntityWatcherEvent() (ev *ObjectEntityWatcherEvent)
+  flag allocates
+  ensures ev != nil && fresh(ev) && ev.Delete != nil && ev.Create != nil && ev.Update != nil && fresh(ev.Delete) && fresh(ev.Create) && fresh(ev.Update) && ref(ev.Delete) != ref(ev.Create) && ref(ev.Create) != ref(ev.Update) && ref(ev.Delete) != ref(ev.Update)
+  ensures len(ev.Delete) == 0 && len(ev.Create) == 0 && len(ev.Update) == 0 && (forall n string :: !(n in ev.Delete) && !(n in ev.Create) && !(n in ev.Update))
+
+func (or *ObjectRegistry) NewWatcher(name string, filter ObjectEntityWatcherFilter) (w *ObjectEntityWatcher)
+  flag allocates
+  requires or != nil && entitiesWF(or) && or.watchers != nil && filter != nil
+  modifies gFirstEvent, entries(or.watchers), allof("map<string,*supervisor.ObjectEntityWatcher>#dom"), allof("map<string,*supervisor.ObjectEntityWatcher>#val"), allof("map<string,*supervisor.ObjectEntityWatcher>#card"), allof("map<string,*supervisor.ObjectEntity>#dom"), allof("map<string,*supervisor.ObjectEntity>#val"), allof("map<string,*supervisor.ObjectEntity>#card")
+  ensures registry-content-untouched: domOf(or.entities) == old(domOf(or.entities)) && valsOf(or.entities) == old(valsOf(or.entities))
+  ensures a-duplicate-name-registers-nothing: old(name in or.watchers) ==> w == nil && or.watchers[name] == old(or.watchers[name])
+  ensures registered-under-its-name: !old(name in or.watchers) ==> w != nil && fresh(w) && (name in or.watchers) && or.watchers[name] == w && w.filter == filter
+  ensures the-watcher-knows-exactly-the-entities-it-wants: w != nil ==> w.entities != nil && w.entities != or.entities && (forall n string :: (n in w.entities) <==> (n in or.entities && wants(ref(filter), or.entities[n]))) && (forall n string :: n in w.entities ==> w.entities[n] == or.entities[n])
+  ensures the-first-event-creates-exactly-these: w != nil ==> gFirstEvent != 0 && (let ev = ptr(gFirstEvent, "*ObjectEntityWatcherEvent") in ev.Create != nil && (forall n string :: (n in ev.Create) <==> (n in w.entities)) && (forall n string :: n in ev.Create ==> ev.Create[n] == w.entities[n]) && len(ev.Delete) == 0 && len(ev.Update) == 0)
+  ensures the-first-event-is-a-map-of-its-own: w != nil ==> (let ev = ptr(gFirstEvent, "*ObjectEntityWatcherEvent") in ref(ev.Create) != ref(w.entities) && ref(ev.Create) != ref(or.entities) && ref(ev.Delete) != ref(w.entities) && ref(ev.Update) != ref(w.entities))
+  ghost at send: gFirstEvent := ref(sent)
+  invariant[1] or.entities != nil && domOf(or.entities) == old(domOf(or.entities)) && valsOf(or.entities) == old(valsOf(or.entities)) && or.watchers == old(or.watchers)
+  invariant[1] watcher != nil && fresh(watcher) && watcher.filter == filter && watcher.entities != nil && fresh(watcher.entities) && firstEvent != nil && fresh(firstEvent) && firstEvent.Create != nil && fresh(firstEvent.Create) && firstEvent.Delete != nil && fresh(firstEvent.Delete) && firstEvent.Update != nil && fresh(firstEvent.Update) && ref(firstEvent.Create) != ref(watcher.entities) && ref(firstEvent.Delete) != ref(watcher.entities) && ref(firstEvent.Update) != ref(watcher.entities) && ref(firstEvent.Delete) != ref(firstEvent.Create) && ref(firstEvent.Update) != ref(firstEvent.Create) && len(firstEvent.Delete) == 0 && len(firstEvent.Update) == 0
+  invariant[1] forall n string :: (n in watcher.entities) <==> (n in or.entities && pos$1[n] < idx$1 && wants(ref(filter), or.entities[n]))
+  invariant[1] forall n string :: (n in firstEvent.Create) <==> (n in watcher.entities)
+  invariant[1] forall n string :: n in watcher.entities ==> watcher.entities[n] == or.entities[n] && firstEvent.Create[n] == or.entities[n]
+
 // ---- C20: reconciling one watcher event: the live set follows the event; init / inherit / close exactly once ----
 ghost var inits mmap[int]int      // entity -> number of Init calls
 ghost var inherits mmap[int]int   // entity -> number of Inherit calls
